@@ -10,15 +10,20 @@
    Driver: phases 1-4 (lex, parse, imports, type check) -> phase 5 -> phases 6-7 (transpile, cc).  Phase 5 failing:
    "Shadow tests failed" on stderr, return 1 before any C is generated, nothing is written at the -o path.
    A pre-existing file at the output path is outside the model.
-   Type checker (src/typechecker.c:5563): every non-extern function other than main to which no shadow block is
-   attached gets "Warning: Function 'f' is missing a shadow test" (a warning: compilation goes on).
+   Type checker (src/typechecker.c:5563): every non-extern function DEFINED IN THE COMPILED FILE other than main to which
+   no shadow block is attached gets "Warning: Function 'f' is missing a shadow test" (a warning: compilation goes on).
    Definitions only. *)
 From Coq Require Import ZArith NArith List Bool.
 From NV Require Import Lang.Ast Lang.Ref Back.InterpSem.
 Import ListNotations.
 
 Record shadow := { sh_fn : ident; sh_body : stmt; sh_skip : bool }.
-Record sprogram := { sp_prog : program; sp_shadows : list shadow }.
+(* sp_shadows: EVERY shadow block of the compiled file, in source order -- a function may have several (each one runs, each is
+   reported under the function's name), a block may stand before its function or far from it, and it may name a function
+   imported from another module.  sp_imported: the functions of sp_prog that come from imported modules (their own
+   module's shadow blocks are NOT run when the module is imported, and the type checker does not ask the importing file
+   for a shadow block for them). *)
+Record sprogram := { sp_prog : program; sp_shadows : list shadow; sp_imported : list ident }.
 
 Record test_result := { tr_name : ident; tr_out : list N; tr_asserts : list bool }.
 Definition fail_count (t : test_result) : nat := length (filter negb (tr_asserts t)).
@@ -93,7 +98,8 @@ Inductive nanoc_result :=
 
 Definition has_shadow (sp : sprogram) (f : ident) : bool := existsb (fun sh => N.eqb (sh_fn sh) f) (sp_shadows sp).
 Definition missing_shadow (sp : sprogram) : list ident :=
-  map fname (filter (fun d => negb (N.eqb (fname d) (pmain (sp_prog sp))) && negb (has_shadow sp (fname d))) (pfns (sp_prog sp))).
+  map fname (filter (fun d => negb (N.eqb (fname d) (pmain (sp_prog sp))) && negb (existsb (N.eqb (fname d)) (sp_imported sp)) &&
+                              negb (has_shadow sp (fname d))) (pfns (sp_prog sp))).
 
 Definition nanoc (ph : phases) (fuel : nat) (sp : sprogram) (base : istack) : nanoc_result :=
   if negb (front_ok ph) then NExit 1 false [] [] else
